@@ -205,7 +205,7 @@ def run_tlc(module, cfg, name, workers=8, timeout=900, env=None, simulate=None, 
             cfg = "CONSTANTS\n" + sub + cfg
     with open(cfgp, "w") as f:
         f.write(cfg)
-    jopts = "-Xss1g"
+    jopts = "-Xss1g -Dfile.encoding=UTF-8"
     if deque:
         jopts += " -Dtlc2.tool.queue.IStateQueue=StateDeque"
     e = dict(os.environ, JAVA_TOOL_OPTIONS=jopts)
@@ -363,6 +363,21 @@ def validate_trace(module, trace_path, name, cfg=None, timeout=900, max_rejectio
         if len(rejections) >= max_rejections:
             break
     return accepted, rejections, states
+
+
+def judge_trace(module, trace_path, name, timeout=1800, xmx="6g", extra_env=None):
+    """Run a judging trace spec (every line is consumed; verdicts are printed as INFO lines).
+    Returns (number of lines consumed, list of INFO objects, states)."""
+    n = sum(1 for _ in open(trace_path))
+    env = {"TRACE": trace_path}
+    if extra_env:
+        env.update(extra_env)
+    r = run_tlc(module, cfg_text(postcondition="Accepted"), name, workers=1, timeout=timeout, env=env, deque=True,
+                coverage=False, xmx=xmx)
+    if r.rejected is not None or r.violated:
+        raise ToolError("%s: the judging trace spec stopped at line %s of %s (%s)" % (
+            module, (r.rejected or {}).get("line"), trace_path, r.violated or "no action enabled"))
+    return n, r.printed, r.distinct
 
 
 # ----------------------------------------------------------------------------- findings, violations, evidence
